@@ -49,7 +49,7 @@ func runC09B8(c *Ctx) {
 			if isPut(i) && len(cc.Args) == 2 {
 				recycled = append(recycled, stripIface(cc.Args[1]))
 			} else if sc := cc.StaticCallee(); sc != nil && isRepoFn(sc) && mayExec(unwrap(sc), isPut, 1) {
-				recycled = append(recycled, cc.Args...)
+				recycled = append(recycled, c09putArgs(unwrap(sc), cc.Args, isPut)...)
 			}
 			for _, r := range recycled {
 				for _, g := range goArgs {
@@ -64,4 +64,35 @@ func runC09B8(c *Ctx) {
 		})
 	}
 	c.ob("C09.B8", "proxy, proxy/tcp|relay buffers are not pooled across the relay's lifetime", token.NoPos, OK, "scanned go statements and sync.Pool.Put sites ("+itoa(n)+" shared)")
+}
+
+// c09putArgs: of the arguments of a call of helper h (which may put something into a sync.Pool), those that are what
+// is put: when the Put sits in h itself, the arguments whose parameter the value put derives from (a helper
+// `release(p *Proxy, buf *[]byte)` recycles buf, not p); when it sits deeper, all of them.
+func c09putArgs(h *ssa.Function, args []ssa.Value, isPut func(ssa.Instruction) bool) []ssa.Value {
+	var puts []ssa.Value
+	for _, g := range withAnon(h) {
+		eachInstr(g, func(i ssa.Instruction) {
+			if cc := callCommon(i); cc != nil && isPut(i) && len(cc.Args) == 2 {
+				puts = append(puts, stripIface(cc.Args[1]))
+			}
+		})
+	}
+	if len(puts) == 0 || len(args) != len(h.Params) {
+		return args
+	}
+	var out []ssa.Value
+	for k, a := range args {
+		p := ssa.Value(h.Params[k])
+		for _, put := range puts {
+			if put == p || derives(put, func(v ssa.Value) bool { return v == p }) {
+				out = append(out, a)
+				break
+			}
+		}
+	}
+	if len(out) == 0 {
+		return args
+	}
+	return out
 }
